@@ -17,7 +17,8 @@ SPEC = os.path.join(VERIF, "spec")
 HARNESS = os.path.join(VERIF, "harness")
 WORK = os.path.join(VERIF, ".work")
 REPLAYS = os.path.join(VERIF, "replays")
-EVIDENCE = os.path.join(VERIF, "evidence")
+# (VERIF_EVIDENCE_DIR: exploratory runs with other seeds write their evidence elsewhere)
+EVIDENCE = os.environ.get("VERIF_EVIDENCE_DIR") or os.path.join(VERIF, "evidence")
 TARGET_BIN = os.path.join(HARNESS, "target", "debug")
 
 
